@@ -419,6 +419,20 @@ def lexcmp_covers(it, o, n):
         want = table_words(n)
         if len(la) != want or len(lb) != want:
             return REFUTED, "ordering compares %d/%d words of %d" % (len(la), len(lb), want)
+        # Equal must mean "same table": position k of the left sequence must be word j of a exactly when
+        # position k of the right sequence is word j of b
+        wa = {tuple(w.all_bits()): j for j, w in enumerate(sym_words(n, "a"))}
+        wb = {tuple(w.all_bits()): j for j, w in enumerate(sym_words(n, "b"))}
+        seen = set()
+        for x, y in zip(la, lb):
+            ja, jb = wa.get(tuple(x.all_bits())), wb.get(tuple(y.all_bits()))
+            if ja is None or jb is None:
+                return UNDECIDED, "compared values are not words of the two tables"
+            if ja != jb:
+                return REFUTED, "ordering compares block %d of one table with block %d of the other: tables that are equal can compare unequal and different tables Equal" % (ja, jb)
+            seen.add(ja)
+        if len(seen) != want:
+            return REFUTED, "ordering ignores some blocks"
         return PROVED, ""
     if isinstance(v, Agg) and v.key == "std::cmp::Ordering":
         return UNDECIDED, "concrete ordering on symbolic tables"
